@@ -267,3 +267,19 @@ def override_canary(canary, ov):
             canary.pop(k, None)
         else:
             canary[k] = v
+
+
+def apply(obj):
+    return {"op": "apply", "object": obj}
+
+
+def delete(kind, ns, name):
+    return {"op": "delete", "kind": kind, "ns": ns, "name": name}
+
+
+def finalize(ns, name):
+    return {"op": "finalize", "kind": "Pod", "ns": ns, "name": name}
+
+
+def cmd(cmd_name, ns, name):
+    return {"op": "cmd", "cmd": cmd_name, "ns": ns, "name": name}
